@@ -53,4 +53,16 @@ def arangeInt (a b step : Int) : List Int :=
     if b < a then (List.range ((a - b + (-step) - 1) / (-step)).toNat).map (fun (k : Nat) => a + step * (k : Int)) else []
   else []
 
+/-- `2^e` for an integer exponent -/
+def pow2 (e : Int) : Rat := if 0 ≤ e then ((2 ^ e.toNat : Nat) : Rat) else 1 / ((2 ^ (-e).toNat : Nat) : Rat)
+
+/-- round a rational to about 54 significant bits (within one unit in the last place of the
+    nearest IEEE double).  Used only by the run-grain driver, between steps, to keep exact
+    arithmetic bounded: the trilinear interpolation triples the bit length of a position at every
+    Runge–Kutta stage, so exact positions cannot be carried through many steps. -/
+def quantize (q : Rat) : Rat :=
+  if q = 0 then 0 else
+  let e : Int := (Nat.log2 q.num.natAbs : Int) - (Nat.log2 q.den : Int) - 53
+  (roundHalfEven (q / pow2 e) : Rat) * pow2 e
+
 end Ladim
